@@ -80,7 +80,8 @@ func c17Serve(r *Run, l *Local, mw *cors.Middleware, cfg *cors.Config, debug boo
 		if nilMap {
 			req.Header = nil
 		}
-		mw.Wrap(&countingHandler{body: "ok"}).ServeHTTP(w, req)
+		w.inner = &countingHandler{body: "ok"}
+		wrappedOnce(mw).ServeHTTP(w, req)
 	})
 }
 
